@@ -119,6 +119,8 @@ type pathState struct {
 	realDigits   bool
 	csvRecords   [][]value
 	csvModel     bool
+	jsonDecode   value // harness closure standing in for encoding/json's decoder (vx.ModelJSONDecoder)
+	jsonReader   value
 	lastRegexp   string
 	sharedWrites int
 	sql          *sqlScript
